@@ -303,7 +303,7 @@ def run_registration(repo: Repo, res: Result, rule: str) -> int:
             extra = sorted(a for a in atoms_of(f2) if a not in ("ISDIR", "EXCL", "PY"))
             ok2 = implies(want, f2)
             n += 1
-            early = [l for l in e.loops if l.early_exit]
+            early = [l for l in e.loops if l.early_exit and not l.exits_only_when_exhausted()]
             if ok2 and early:
                 ok2 = False
                 det2 = f"the walk can leave the loop `{_loop_text(early[0])}` early (break / return): later paths are never registered"
